@@ -90,6 +90,53 @@ def propagateDft (fs : List (TField K R)) (αr αc : R) (S0 S1 P0 P1 os : Int) (
     (Gen.dftPropShapeOut P0 P1 os).1 (Gen.dftPropShapeOut P0 P1 os).2
 end
 
+/-- outcome of a `propagate_dft(...)` call as the caller writes it: the output fields and the output array shape, or the exception -/
+inductive DftOut (K : Type) where
+  | ok (fields : List (Fld K)) (S0 S1 : Int)
+  | valueError
+  | indexError
+
+/-- `out_extent` in the mask branch for a mask array of shape `(m0, m1)` whose support has the bounding rows/cols `b`
+(generated `_mask_shape`, `_mask_shift`, `array_extent` arguments) -/
+def maskOutExtent (m0 m1 S0 S1 : Int) (b : Extent) : Extent :=
+  let sh := Gen.maskShape b.rmin b.rmax b.cmin b.cmax
+  let sf := Gen.maskShift m0 m1 b.rmin b.rmax b.cmin b.cmax
+  let a := Gen.dftOutExtentArgsMask sh.1 sh.2 sf.1 sf.2 S0 S1
+  arrayExtent a.1.1 a.1.2 a.2.1 a.2.2
+
+/-- `out_extent` without a mask (generated `array_extent` arguments) -/
+def noMaskOutExtent (S0 S1 : Int) : Extent :=
+  let a := Gen.dftOutExtentArgsNoMask S0 S1
+  arrayExtent a.1.1 a.1.2 a.2.1 a.2.2
+
+section
+variable [Add K] [Mul K] [Zero K] [Add R] [Sub R] [Mul R] [Neg R] [RealLike R] [CxLike K R]
+/-- the body of `propagate_dft` after `shape_out = (S0, S1)` and `prop_shape_out = (P0, P1)` are resolved: mask-shape guard,
+`lentil.boundary` of the mask, the mask / no-mask `out_extent`, the field loop -/
+def propagateDftResolved (fs : List (TField K R)) (αr αc : R) (S0 S1 P0 P1 : Int) (mask : Option (Arr Bool)) : DftOut K :=
+  match mask with
+  | none => .ok (fs.filterMap fun t => propagateField t αr αc (noMaskOutExtent S0 S1) P0 P1) S0 S1
+  | some m =>
+    if Gen.dftMaskMismatch m.s0 m.s1 S0 S1 then .valueError
+    else match boundary m with
+      | none => .indexError
+      | some b => .ok (fs.filterMap fun t => propagateField t αr αc (maskOutExtent m.s0 m.s1 S0 S1 b) P0 P1) S0 S1
+
+/-- `propagate_dft(wavefront, pixelscale, shape, prop_shape, oversample, mask)` with the arguments as the caller writes them:
+the `None` defaults and int→pair broadcasting (`Gen.dftShapeDefault`, `Gen.dftPropShapeDefault`), the mask-shape guard
+(`Gen.dftMaskMismatch`), `lentil.boundary` of the mask (C20 `boundary`; an empty support is NumPy's IndexError) and the
+mask / no-mask choice of `out_extent` are all taken from the generated code. `(W0, W1)` is `wavefront.shape`. -/
+def propagateDftCall (fs : List (TField K R)) (αr αc : R) (W0 W1 : Int) (shape propShape : Gen.ShapeArg) (os : Int)
+    (mask : Option (Arr Bool)) : DftOut K :=
+  propagateDftResolved fs αr αc
+    (Gen.dftShapeOut (Gen.dftShapeDefault W0 W1 shape).1 (Gen.dftShapeDefault W0 W1 shape).2 os).1
+    (Gen.dftShapeOut (Gen.dftShapeDefault W0 W1 shape).1 (Gen.dftShapeDefault W0 W1 shape).2 os).2
+    (Gen.dftPropShapeOut (Gen.dftPropShapeDefault (Gen.dftShapeDefault W0 W1 shape).1 (Gen.dftShapeDefault W0 W1 shape).2 propShape).1
+      (Gen.dftPropShapeDefault (Gen.dftShapeDefault W0 W1 shape).1 (Gen.dftShapeDefault W0 W1 shape).2 propShape).2 os).1
+    (Gen.dftPropShapeOut (Gen.dftPropShapeDefault (Gen.dftShapeDefault W0 W1 shape).1 (Gen.dftShapeDefault W0 W1 shape).2 propShape).1
+      (Gen.dftPropShapeDefault (Gen.dftShapeDefault W0 W1 shape).1 (Gen.dftShapeDefault W0 W1 shape).2 propShape).2 os).2 mask
+end
+
 /-- value of an optional output field on the infinite zero-padded plane (`none` = no field was produced = zero) -/
 def embO [Zero K] (o : Option (Fld K)) (r c : Int) : K :=
   match o with
